@@ -146,6 +146,21 @@ def run_shard(shard, rec, tier, seed):
     harness.setup()
     rng = harness.rng_for(seed, ID, shard["name"], 0)
     if shard["kind"] == "table":
+        if shard["res"] % 2 == 0:
+            # a client used the public interval helper itself before parsing, with numbers that EQUAL the resolution without being the
+            # same kind of number (200.0, a bool for resolution 1): nothing it does there may change what the parser later decides
+            try:
+                import chartparse.tick as T
+
+                for nd in list(T.NoteDuration):
+                    for r_ in (float(shard["res"]), shard["res"]):
+                        try:
+                            T.note_duration_to_ticks(r_, nd)
+                        except Exception:  # noqa
+                            pass
+                rec.cls("public_interval_helper_called_with_equal_float_before_parsing")
+            except Exception as e:  # noqa
+                rec.diag(f"helper pre-call skipped: {e}")
         run_table(rec, shard["res"], rng)
         rec.mon("tables_requested")
     else:
